@@ -6,22 +6,34 @@ import common
 
 LEAN_MODULES = ['OpusProps.C18Stereo']
 GEN = ['SilkStereoTabs']
-SOURCES = ['silk/stereo_quant_pred.c', 'silk/stereo_encode_pred.c', 'silk/stereo_decode_pred.c', 'silk/tables_other.c',
+SOURCES = ['silk/stereo_find_predictor.c', 'silk/stereo_LR_to_MS.c', 'silk/Inlines.h', 'silk/sum_sqr_shift.c', 'silk/inner_prod_aligned.c',
+           'silk/tuning_parameters.h', 'silk/stereo_quant_pred.c', 'silk/stereo_encode_pred.c', 'silk/stereo_decode_pred.c', 'silk/tables_other.c',
            'silk/tables.h', 'silk/define.h', 'silk/macros.h', 'silk/SigProc_FIX.h', 'silk/typedef.h']
-RULE = ('silk_stereo_quant_pred on predictor pairs drawn from: the range silk_stereo_find_predictor can return, the 75 levels '
+RULE = ('silk_stereo_find_predictor on random / correlated / extreme / zero-basis int16 vectors (lengths 1..320) with random '
+        'smoothing state; sequences of 2..8 consecutive real silk_stereo_LR_to_MS calls (8 signal classes: independent, amplitude '
+        'panned, phase inverted, silence, one silent channel, clipping, nearly mono, changing; fs 8/12/16 kHz, 10/20 ms, 6..64 kb/s, '
+        'random speech activity, toMono; reset / mid-run / arbitrary int16 width state) with the values recorded at its callees; '
+        'silk_stereo_encode_mid_only round trips; silk_stereo_quant_pred on predictor pairs drawn from: the range silk_stereo_find_predictor can return, the 75 levels '
         '+-2, the exact mid-points between neighbouring levels +-1, the table entries +-1, fixed boundary values (0, +-2^14, '
         'int16 / int32 extremes), the neighbourhood of the largest defined input, the bottom of the int32 range and uniform '
         'int32 values, with ix pre-filled (sentinel / random); silk_stereo_decode_pred on ALL 25*3*5*3*5 index tuples; '
         'quantise -> silk_stereo_encode_pred -> ec_enc_done -> silk_stereo_decode_pred on random buffer sizes 4..24; index '
         'arrays through silk_stereo_encode_pred incl. one beyond its assert bound; a case is distinct by (op, outcome kind)')
-NOT_COVERED = ['silk_stereo_find_predictor / silk_stereo_LR_to_MS (how the encoder arrives at the predictors it hands over, the '
-               'smoothing by smth_width_Q14) and silk_stereo_MS_to_LR (how the decoder applies them) are other slices; here the '
-               'domain is every opus_int32 pair',
+NOT_COVERED = ['the sample loops in front of the modelled integer code — the mid/side conversion and the LP/HP filters of '
+               'silk_stereo_LR_to_MS, silk_sum_sqr_shift and silk_inner_prod_aligned_scale inside silk_stereo_find_predictor — are '
+               'inputs of the model (their results are universally quantified in encoder_pred_in_domain, and obtained from the '
+               'library in the tie); the side-channel prediction loops after silk_stereo_quant_pred and silk_stereo_MS_to_LR are '
+               'other slices',
+               'that the plain int additions / subtractions of stereo_find_predictor.c:67-73 do not overflow is not proved (the model '
+               'reduces them mod 2^32; the tie runs under UBSan); that smth_width_Q14 stays in [0, 2^14] is not proved — the bound '
+               '[-2^15, 2^15] on the pair holds for ANY opus_int16 width, [-2^14, 2^14] is proved given that range',
                'inputs above silk_int32_MAX - 13365 (13 365 values per predictor): `pred_Q13[n] - lvl_Q13` overflows opus_int32 '
                '(undefined behaviour), the model answers UB and the harness does not call the library on them; the encoder never '
-               'produces them (|pred_Q13| <= 2^14 after silk_stereo_find_predictor)',
+               'produces them (encoder_pred_in_domain)',
                'negative entries of ix handed to silk_stereo_encode_pred (its asserts bound from above only) are outside the tie; '
-               'the quantiser is proved never to produce them']
+               'the quantiser is proved never to produce them',
+               'the mid-only round trip is proved on a fresh range coder (position-independence of ec_enc_icdf / ec_dec_icdf is C08); '
+               'the silent_side_len logic that may clear *mid_only_flag afterwards (stereo_LR_to_MS.c:181-191) is not modelled']
 ASSUMPTIONS = ['pred_Q13 points to two opus_int32, ix to opus_int8[2][3] (the harness uses stack objects under ASan)',
                'the range coder itself (ec_enc_icdf / ec_dec_icdf / ec_enc_done) is property C08; the round trip theorem of this '
                'slice is about the index arithmetic on both sides, the range coder is exercised by the tie']
@@ -37,7 +49,7 @@ LEVEL_NOTE = ('trusted: Lean kernel; harness and line protocol; the reading of s
               'is proved equal to the scan the theorems use, the tie runs the scan form')
 TECHNIQUE = 'Lean 4 theorems over an executable model + differential correspondence + implementation-only search'
 
-REQUIRED_THEOREMS = ['OpusProps.C18Stereo.table_facts', 'OpusProps.C18Stereo.quant_indices_in_range', 'OpusProps.C18Stereo.enc_dec_agree', 'OpusProps.C18Stereo.quant_nearest', 'OpusProps.C18Stereo.quant_error_bound', 'OpusProps.C18Stereo.dequant_in_range', 'OpusProps.C18Stereo.dequant_in_range_any_state', 'OpusProps.C18Stereo.mid_only_flag_binary', 'OpusProps.C18Stereo.nested_loops_are_scan', 'OpusProps.C18Stereo.domain_exact']
+REQUIRED_THEOREMS = ['OpusProps.C18Stereo.table_facts', 'OpusProps.C18Stereo.quant_indices_in_range', 'OpusProps.C18Stereo.enc_dec_agree', 'OpusProps.C18Stereo.quant_nearest', 'OpusProps.C18Stereo.quant_error_bound', 'OpusProps.C18Stereo.dequant_in_range', 'OpusProps.C18Stereo.dequant_in_range_any_state', 'OpusProps.C18Stereo.mid_only_flag_binary', 'OpusProps.C18Stereo.encoder_pred_in_domain', 'OpusProps.C18Stereo.encoder_stereo_symbols_valid', 'OpusProps.C18Stereo.mid_only_round_trip', 'OpusProps.C18Stereo.nested_loops_are_scan', 'OpusProps.C18Stereo.domain_exact']
 UNPROVED = []
 
 
@@ -54,9 +66,15 @@ def _h(ctx, variant):
     return ctx.harness('c18_stereo' + ('' if variant == 'plain' else '_' + variant), ['c18_stereo.c'], variant=variant)
 
 
+def _he(ctx, variant):
+    return ctx.harness('c18_stereoenc' + ('' if variant == 'plain' else '_' + variant), ['c18_stereoenc.c'], variant=variant)
+
+
 def ties(ctx):
     hs = _h(ctx, 'san')
     hp = _h(ctx, 'plain')
+    es = _he(ctx, 'san')
+    ep = _he(ctx, 'plain')
     _wait_driver()
     n = 6000 if ctx.quick else 150000
     specs = [('stereo-tabs', [hp, 'tabs']),
@@ -66,7 +84,12 @@ def ties(ctx):
              ('stereo-dec-plain', [hp, 'dec']),
              ('stereo-rt-san', [hs, 'rt', str(ctx.seed), str(n // 3)]),
              ('stereo-rt-plain', [hp, 'rt', str(ctx.seed + 104729), str(n // 3)]),
-             ('stereo-syms-plain', [hp, 'syms', str(ctx.seed), '300'])]
+             ('stereo-syms-plain', [hp, 'syms', str(ctx.seed), '300']),
+             ('stereo-findpred-san', [es, 'find', str(ctx.seed), str(n // 2)]),
+             ('stereo-findpred-plain', [ep, 'find', str(ctx.seed + 31337), str(n // 2)]),
+             ('stereo-lr-san', [es, 'lr', str(ctx.seed), str(n // 12)]),
+             ('stereo-lr-plain', [ep, 'lr', str(ctx.seed + 271828), str(n // 12)]),
+             ('stereo-midonly', [es, 'midonly'])]
     return common.run_ties_parallel(specs, workers=4)
 
 
@@ -87,9 +110,13 @@ def search(ctx):
     """Predicates on the implementation alone (no model)."""
     n = 20000 if ctx.quick else 600000
     wit, cases, samples = [], 0, []
-    for variant in ('san', 'plain'):
-        h = _h(ctx, variant)
-        cmd = [h, 'search', str(ctx.seed + (0 if variant == 'san' else 15485863)), str(n)]
+    for variant, which in (('san', 'q'), ('plain', 'q'), ('san', 'lr'), ('plain', 'lr')):
+        if which == 'q':
+            h = _h(ctx, variant)
+            cmd = [h, 'search', str(ctx.seed + (0 if variant == 'san' else 15485863)), str(n)]
+        else:
+            h = _he(ctx, variant)
+            cmd = [h, 'lr', str(ctx.seed + (5 if variant == 'san' else 6700417)), str(n // 20), 'search']
         env = dict(os.environ)
         env.setdefault('ASAN_OPTIONS', 'detect_leaks=0:abort_on_error=0')
         p = subprocess.run(cmd, stdout=subprocess.PIPE, stderr=subprocess.STDOUT, text=True, env=env, timeout=3000)
@@ -104,7 +131,9 @@ def search(ctx):
                                              'range': 'the quantised predictor lies inside the span of the levels',
                                              'saturate': 'inputs outside the span map to the end levels',
                                              'agree': 'silk_stereo_decode_pred rebuilds exactly the pair silk_stereo_quant_pred left in pred_Q13',
-                                             'levels': 'the 75 levels are strictly increasing'}.get(m.group(1), ''),
+                                             'levels': 'the 75 levels are strictly increasing',
+                                             'bound': 'every pair silk_stereo_LR_to_MS hands to silk_stereo_quant_pred lies in [-32768, 32768] (OpusProps.C18Stereo.encoder_pred_in_domain)',
+                                             'calls': 'exactly two silk_stereo_find_predictor calls and one silk_stereo_quant_pred call per frame'}.get(m.group(1), ''),
                                 'observed': m.group(3), 'why': 'stereo predictor predicate `%s` fails on the implementation' % m.group(1)})
                 else:
                     wit.append({'suite': 'stereo-search', 'input': line[2:200], 'expected': 'inside-span error at most half of the largest level gap',
@@ -126,5 +155,6 @@ def search(ctx):
                       'the tie): every ix entry in range; the quantised value is the nearest of the 75 levels computed with the '
                       'library macros from the library table; inside the span, saturated to the end levels outside; inside-span '
                       'error at most half of the largest gap; silk_stereo_encode_pred -> ec_enc_done -> silk_stereo_decode_pred '
-                      'gives back exactly the pair the quantiser left in pred_Q13',
+                      'gives back exactly the pair the quantiser left in pred_Q13; on sequences of real silk_stereo_LR_to_MS calls (synthetic '
+                      'stereo signals, all rates, 6..64 kb/s) the pair recorded at the call of silk_stereo_quant_pred lies in the proved range',
             'samples': samples, 'witnesses': wit[:10]}
